@@ -10,7 +10,8 @@
 //          noise-covariance call returns an empty matrix; correct(p, p); UKF update_weights_online; SUKF reduced R)
 //         life   fresh | mc | mcu | vec | ma | mau   how the subject is obtained: as constructed; move-constructed from a
 //                fresh object / from one that has run step 0; element 0 of a std::vector that has grown; move-assigned
-//                (classes that have the operator) from a fresh / used object onto an object of another configuration
+//                (classes that have the operator) from a fresh / used object onto an object with its own, other models and
+//                the opposite skip flag.  Skip flags are set on the SOURCE only: the new object must carry them
 //         intr   1: inside every callback of the subject's models an independent twin object of the same class runs a
 //                complete step (its own models, other data of the same shapes, pattern tpat<k>) and getLikelihood
 //         conc   1 (kind gl): the steps are also evaluated from one thread each at the same time
@@ -457,25 +458,20 @@ static void drive(const vf::Case& c, std::shared_ptr<Shared> sh, const Cfg& g, R
     long from = 0;
     if (life == "mcu" || life == "mau") { r.run(*first, 0, 1); from = 1; }
     if (r.aborted) return;
-    // KFCorrection / UKFCorrection / SUKFCorrection: the hand-written move constructors do not move the GaussianCorrection
-    // base, so a skip flag set on the source is not carried (C13's subject): the command is given again to the new object.
-    // The particle classes move their base; nothing is re-issued for them.
-    const bool regive = std::is_base_of<GaussianCorrection, Corr>::value;
-    // another object of the same class with its own models (vector neighbour / target of the assignment)
-    // (BootstrapCorrection's move assignment moves only the base class: the target keeps its own models -- reported, not
-    //  C12's subject -- so for that class the other object is built over the subject's sensor)
-    auto osh = std::is_same<Corr, BootstrapCorrection>::value ? sh : std::make_shared<Shared>(*sh);
+    // another object of the same class with ITS OWN models (vector neighbour / target of the assignment): a sensor and a
+    // likelihood that never report unavailability and log elsewhere, so a subject that kept them instead of the source's
+    // is seen at the first failing step
+    auto osh = std::make_shared<Shared>(*sh);
+    osh->bits = "000000"; osh->bits2 = "000000"; osh->intrudes = false;
     InnerSkip oinner;
     if (life == "mc" || life == "mcu") {
         vf::Entry e("move constructor");
         Corr moved(std::move(*first)); first.reset();
-        if (c.mi("skip") == 1 && regive) moved.skip(true);
         r.run(moved, from, steps);
     } else if (life == "vec") {
         std::vector<Corr> v; v.reserve(1);
         v.push_back(std::move(*first)); first.reset();
         { std::unique_ptr<Corr> other = make(osh, g, &oinner); v.push_back(std::move(*other)); }   // growth moves element 0 again
-        if (c.mi("skip") == 1 && regive) v[0].skip(true);
         r.run(v[0], from, steps);
     } else if (life == "ma" || life == "mau") {
         std::unique_ptr<Corr> target = make(osh, g, &oinner);
